@@ -4,6 +4,12 @@ VERIF = os.path.dirname(os.path.dirname(os.path.abspath(__file__)))
 ALL = ["C%02d" % i for i in range(1, 19)]
 
 CLAIMS = {
+    "C09": dict(cat="proof", design="§7 C09", technique="Lean 4 scanner-level theorems (no rule can start inside a chunk claimed by the speedup text rule; lazy-repeat priority lemma) + kernel-decided obligations on the regenerated rule tables; HTML equality by differential oracle",
+                text="Proved (Lean kernel, any subject, any rule table): the lazy text rule `[\\s\\S]+?(?=…)` stops at the FIRST position where its look-ahead holds; a rule whose finite first-character set is inside the stop set cannot match at a non-stop character; hence no such rule can start strictly inside a claimed chunk. Kernel-decided on every run against the regenerated tables of all named configurations: the text regex has that shape, every inline rule other than line breaks/url_link starts only with stop characters, the block fast path is line-anchored, contains at most one newline and no later rule can start with a character it accepts. Byte-equality of the HTML (with speedup registered last, incl. mistune.html and hard_wrap) is the differential oracle on the implementation, not yet a theorem.",
+                note="Partial: theorems are at the scanner level; handler/rendering equivalence (HARD_LINEBREAK_RE.sub vs soft breaks, add_paragraph vs holes) is tested. Claim is for speedup registered after the other plugins. Trusted: Lean kernel, regex conformance tie, generator reach."),
+    "C10": dict(cat="proof", design="§7 C10", technique="Lean 4 theorem: a rule needing an absent character never changes scanner results (from matcher soundness + verified `needs` analysis); trigger sets computed from regenerated regexes; HTML equality by differential oracle",
+                text="Proved (Lean kernel, any subject, any rule tables, any insertion position): adding a rule one of whose needed characters does not occur in the subject leaves every scanner search result unchanged. The needed characters of every plugin rule are computed by the verified analysis from the regex regenerated from the working tree; a kernel-decided obligation checks every plugin rule has one. The consequence for the HTML (plugin P on top of any subset/order of other plugins, trigger-free document) is evaluated by the differential oracle; inertness of replaced handlers and hooks is tested, not proved.",
+                note="Partial: scanner-level theorem; handler replacements/hooks (spoiler, fenced directive, task_lists, abbr) and closure of child sources under the parent's alphabet are tested. Trusted: Lean kernel, regex conformance tie."),
     "C01": dict(cat="proof", design="§7 C01", technique="Lean 4: soundness of a CPython-semantics regex matcher + generic termination/progress theorems for the two scanner loops, with kernel-decided obligations on rule tables regenerated from the working tree; ties: regex conformance, loop-trace replay, handler-contract monitoring; guarded-process oracle",
                 text="Proved (Lean kernel, all subjects / all rule tables / all handler tables): the backtracking matcher is sound w.r.t. a declarative match relation; every match is at least minLen long; with rules that consume a character and handlers satisfying the progress contract, BlockParser.parse and InlineParser.parse terminate normally with strictly increasing cursor in at most |src| iterations. Kernel-decided on data regenerated from the working tree on every run: every rule of every named configuration has minLen >= 1, no regex anywhere has a nullable repeat body, every pattern was translated. Ties checked every run: engine vs re on every pattern (span + groups), the real loops' iterations replayed through the model loops, the progress contract monitored on every real handler call. NOT proved (tested): the contract of each concrete handler, the recursion-depth bound, renderer totality — covered by the oracle: documents, noise and nesting pumps under the configuration space in guarded worker processes.",
                 note="Trusted: Lean kernel + standard axioms; CPython re termination per call; extractor (re._parser based) re-validated behaviourally; generator reach. Partial: handler contracts and nesting bound are monitored/tested, not theorems."),
